@@ -42,7 +42,7 @@ package metrics
 //@
 //@ func (*Metrics).RecordIterationStage
 //@   fp-inexact
-//@   props C16
+//@   props C16 C01
 //@   requires metrics.Iteration != nil
 //@   modifies nothing
 //@   assert before call WithLabelValues #0 : [labels] len(arg1) == 3 + len(metrics.staticMetricLabelValues) && arg1[0] == name && arg1[1] == stage && arg1[2] == result
